@@ -19,6 +19,12 @@ CLAIMS = {
          'write-back only after a successful access, loads to the PC through LoadWritePC; memory hypotheses discharged on flat maps.',
          'Partial: the remaining ~50 load/store classes (literal, halfword/byte variants, doubleword, unprivileged, exclusive) are '
          'covered by the regenerated model and the whole-step correspondence only; ThumbEE null checks are excluded (state <> ThumbEE).'),
+ 'C03': ('LDM and STM (increment after, the forms every other block transfer is a variant of) proved equal to the architectural '
+         'loops by induction over the register list, for every register mask, base, W bit and state: lowest register at the lowest '
+         'address, consecutive words modulo 2^32, PC last, base write-back by 4*BitCount(registers) only after all accesses '
+         'succeeded, UNKNOWN stored for a written-back base that is not lowest; the invariant they need is shown to hold on flat maps.',
+         'Partial: DA/DB/IB forms, PUSH/POP, the user-bank and exception-return forms, SRS/RFE and the PUSH;POP round trip are '
+         'covered by the regenerated model and correspondence only.'),
  'C04': ('execute() of B, BL/BLX (immediate), BLX (register), BX, CBZ/CBNZ and the four PC-write primitives (BranchWritePC, BXWritePC, '
          'ALUWritePC, LoadWritePC) proved equal to the architectural operations for every state, offset, register and PC (incl. wrap '
          'at 2^32); the offset assembled by every branch encoding (A1, A2, T1-T4, BL/BLX T1/T2) proved to be the sign-extended field '
